@@ -20,9 +20,9 @@ from fractions import Fraction
 from common import *
 import c05_amount2coq
 
-COQ_FILES = ['Gen/C05Amount.v', 'C05/Model.v', 'C05/Proofs.v', 'C05/Props.v']
+COQ_FILES = ['Gen/C05Amount.v', 'C05/Model.v', 'C05/Amount.v', 'C05/Proofs.v', 'C05/AmountProofs.v', 'C05/Cases.v', 'C05/Props.v']
 IMPL = os.path.join(os.path.dirname(os.path.abspath(__file__)), 'impl_c05.py')
-MODEL_VARIANT = 'tree_variant'     # C05/Model.v: as_code for the unchanged tree (flip there, not here)
+# the model variant compared with the implementation is C05/Model.v tree_variant (as_code for the unchanged tree)
 
 SIG_NONFINITE = 'C05/non-finite-amount-accepted'
 SIG_NONE_GROUP = 'C05/regex-unmatched-group-crash'
@@ -540,92 +540,50 @@ def shrink(case, sig):
 # =====================================================================================================
 # model side (evaluated inside Coq)
 # =====================================================================================================
-HEADER = '''From Coq Require Import String Ascii.
-From Coq Require Import List Bool ZArith NArith.
-From Tally Require Import C05.Model.
+HEADER = """From Coq Require Import String Ascii.
+From Coq Require Import List.
+From Tally Require Import C05.Model C05.Cases.
 Import ListNotations.
-Definition B (s : string) : bs := bytes s.
-Definition mk_spec (dc : nat) (fmt : bs) (ac : nat) (d : desc_mode) (lc : option nat) (hh ng ab : bool)
-  (ss : option bs) (sn ds : bs) : spec :=
-  {| date_col := dc; date_fmt := fmt; amount_col := ac; desc := d; loc_col := lc; has_header := hh; negate := ng;
-     absolute := ab; spec_source := ss; source_name := sn; dec_sep := ds |}.
-(* strptime oracle: the table datetime.strptime produced for this case; a text that is not in the table
-   yields a marker date, so a wrong key can only show up as a disagreement *)
-Fixpoint lookup (t : list (bs * option bs)) (k : bs) : option bs :=
-  match t with [] => Some (B "?not-in-oracle-table") | (k', v) :: r => if bs_eqb k k' then v else lookup r k end.
-Inductive eamount := EFin (lo_n lo_d hi_n hi_d : Z) (closed : bool) | EInf (neg : bool) | ENaN.
-(* m * 10^e  <= / <  n / d   (d > 0) *)
-Definition q_cmp (m e n d : Z) : comparison :=
-  if (0 <=? e)%Z then Z.compare (m * 10 ^ e * d) n else Z.compare (m * d) (n * 10 ^ (- e)).
-Definition amount_ok (a : fl) (x : eamount) : bool :=
-  match a, x with
-  | Fin m e, EFin ln ld hn hd closed =>
-    match q_cmp m e ln ld, q_cmp m e hn hd with
-    | Gt, Lt => true
-    | Eq, Lt | Gt, Eq | Eq, Eq => closed
-    | _, _ => false
-    end
-  | Inf n, EInf n' => Bool.eqb n n'
-  | NaN, ENaN => true
-  | _, _ => false
-  end.
-Definition obs_eqb (a b : option bs) : bool :=
-  match a, b with Some x, Some y => bs_eqb x y | None, None => true | _, _ => false end.
-Fixpoint fields_eqb (a b : list (bs * bs)) : bool :=
-  match a, b with
-  | [], [] => true
-  | (k, v) :: r, (k', v') :: s => bs_eqb k k' && bs_eqb v v' && fields_eqb r s
-  | _, _ => false
-  end.
-Record etxn := { e_date : bs; e_desc : bs; e_amount : eamount; e_source : bs; e_field : option (list (bs * bs));
-                 e_loc : option bs; e_credit : bool }.
-Definition E d de a s f l c := {| e_date := d; e_desc := de; e_amount := a; e_source := s; e_field := f; e_loc := l; e_credit := c |}.
-Definition txn_ok (t : txn) (e : etxn) : bool :=
-  bs_eqb (t_date t) (e_date e) && bs_eqb (t_desc t) (e_desc e) && amount_ok (t_amount t) (e_amount e)
-  && bs_eqb (t_source t) (e_source e)
-  && match t_field t, e_field e with Some x, Some y => fields_eqb x y | None, None => true | _, _ => false end
-  && obs_eqb (t_loc t) (e_loc e) && Bool.eqb (t_credit t) (e_credit e).
-Fixpoint txns_ok (a : list txn) (b : list etxn) : bool :=
-  match a, b with [], [] => true | t :: r, e :: s => txn_ok t e && txns_ok r s | _, _ => false end.
-Inductive expected := ERows (l : list etxn) | ECrashed.
-Definition ok (c : spec * list (bs * option bs) * input * expected) : bool :=
-  let '(sp, tbl, inp, ex) := c in
-  match parse (fun _ k => lookup tbl k) VARIANT sp inp, ex with
-  | Rows l, ERows e => txns_ok l e
-  | Crashed, ECrashed => true
-  | _, _ => false
-  end.
-Fixpoint failing (i : nat) (l : list (spec * list (bs * option bs) * input * expected)) : list nat :=
-  match l with [] => [] | c :: r => if ok c then failing (S i) r else i :: failing (S i) r end.
-'''.replace('VARIANT', MODEL_VARIANT)
+Open Scope string_scope.
+"""
+# Case encoding (decoded by coq/theories/C05/Cases.v): tree ::= '(' tree* ')' | escaped-bytes ';'
+_PLAIN = {c for c in range(32, 127)} - set(b'();~"')
 
 
-def cb(s):
-    """Python str -> Coq term of type bs (UTF-8 bytes)"""
-    b = s.encode('utf-8')
-    if all(32 <= c < 127 for c in b) and len(b) > 0:
-        return '(B "' + b.decode('ascii').replace('"', '""') + '")'
-    return '[' + ';'.join(str(c) for c in b) + ']%N'
+def leaf(s):
+    b = s.encode('utf-8') if isinstance(s, str) else str(s).encode()
+    return ''.join(chr(c) if c in _PLAIN else '~%02x' % c for c in b) + ';'
 
 
-def copt(x, f=cb):
-    return 'None' if x is None else f'(Some {f(x)})'
+def node(*xs):
+    return '(' + ''.join(xs) + ')'
 
 
-def cbool(x):
-    return 'true' if x else 'false'
+def lst(xs):
+    return '(' + ''.join(xs) + ')'
 
 
-def zlit(n):
-    return f'({n})%Z'
+def opt(x, f=leaf):
+    return '()' if x is None else '(' + f(x) + ')'
 
 
-def clist(xs):
-    return '[' + '; '.join(xs) + ']'
+def tbool(x):
+    return '1;' if x else '0;'
+
+
+def pow2_repr(fr):
+    """Fraction with a power-of-two denominator -> (n, k) with fr = n * 2^k, n small"""
+    n, d = fr.numerator, fr.denominator
+    k = -(d.bit_length() - 1)
+    assert d == 1 << (-k)
+    while n and n % 2 == 0:
+        n //= 2
+        k += 1
+    return n, k
 
 
 def float_interval(x):
-    """rounding interval of the finite non-zero double x as exact rationals + whether ties belong to it"""
+    """ends of the set of reals that round to the finite non-zero double x (exact), and whether ties belong to it"""
     f = Fraction(x)
     lo_nb, hi_nb = math.nextafter(x, -math.inf), math.nextafter(x, math.inf)
     big = Fraction(2) ** 1024
@@ -635,64 +593,63 @@ def float_interval(x):
     return lo, hi, even
 
 
-def c_eamount(h):
+def t_eamount(h):
     if h == 'nan':
-        return 'ENaN'
+        return node(leaf('N'))
     if h in ('inf', '-inf'):
-        return f'(EInf {cbool(h[0] == "-")})'
+        return node(leaf('I'), tbool(h[0] == '-'))
     lo, hi, even = float_interval(float.fromhex(h))
-    return f'(EFin {zlit(lo.numerator)} {zlit(lo.denominator)} {zlit(hi.numerator)} {zlit(hi.denominator)} {cbool(even)})'
+    (ln, le), (hn, he) = pow2_repr(lo), pow2_repr(hi)
+    return node(leaf('F'), leaf(ln), leaf(le), leaf(hn), leaf(he), tbool(even))
 
 
-def c_spec(case, r):
+def t_spec(case, r):
     sp, src = r['spec'], case['source']
     pieces = r['lib'].get('pieces')
+    pr = lambda kv: node(leaf(kv[0]), leaf(kv[1]))  # noqa
     if sp['description_column'] is not None:
-        ex = sorted(sp['extra_fields'] or [])
-        d = f"(DescCol {sp['description_column']} {clist(f'({cb(k)}, {c}%nat)' for k, c in ex)})"
+        d = node(leaf('D'), leaf(sp['description_column']), lst(pr(x) for x in sorted(map(tuple, sp['extra_fields'] or []))))
     else:
-        caps = sorted(sp['custom_captures'] or [])
         ps = []
         for lit, fld, fs, conv in pieces:
             if lit:
-                ps.append(f'Lit {cb(lit)}')
+                ps.append(node(leaf('L'), leaf(lit)))
             if fld is not None:
-                ps.append(f'Ref {cb(fld)}')
-        d = f"(Template {clist(f'({cb(k)}, {c}%nat)' for k, c in caps)} {clist(ps)})"
-    return (f"(mk_spec {sp['date_column']} {cb(sp['date_format'])} {sp['amount_column']} {d} "
-            f"{copt(sp['location_column'], lambda c: str(c) + '%nat')} {cbool(sp['has_header'])} {cbool(sp['negate_amount'])} "
-            f"{cbool(sp['abs_amount'])} {copt(sp['source_name'])} {cb(src.get('name', 'CSV'))} {cb(src.get('decimal_separator', '.'))})")
+                ps.append(node(leaf('R'), leaf(fld)))
+        d = node(leaf('T'), lst(pr(x) for x in sorted(map(tuple, sp['custom_captures'] or []))), lst(ps))
+    return node(leaf(sp['date_column']), leaf(sp['date_format']), leaf(sp['amount_column']), d,
+                opt(sp['location_column']), tbool(sp['has_header']), tbool(sp['negate_amount']), tbool(sp['abs_amount']),
+                opt(sp['source_name']), leaf(src.get('name', 'CSV')), leaf(src.get('decimal_separator', '.')))
 
 
-def c_input(case, r):
+def t_input(case, r):
     lib = r['lib']
     if case['lay']['kind'] == 'csv':
-        return '(CsvIn ' + clist(clist(cb(c) for c in rec) for rec in lib['records']) + ')'
+        return node(leaf('C'), lst(lst(leaf(c) for c in rec) for rec in lib['records']))
     ls = []
     for line, g in zip(lib['lines'], lib['groups']):
-        gs = 'None' if g is None else '(Some ' + clist(copt(c) for c in g) + ')'
-        ls.append(f'{{| raw := {cb(line)}; groups := {gs} |}}')
-    return '(RegexIn ' + clist(ls) + ')'
+        ls.append(node(leaf(line), '()' if g is None else node(lst(opt(c) for c in g))))
+    return node(leaf('R'), lst(ls))
 
 
-def c_expected(r):
+def t_expected(r):
     full = r['full']
     if 'error' in full:
-        return 'ECrashed' if full['error'] in ('AttributeError', 'KeyError') else None
+        return node(leaf('X')) if full['error'] in ('AttributeError', 'KeyError') else None
     es = []
     for t in full['txns']:
-        fld = 'None' if t['field'] is None else '(Some ' + clist(f'({cb(k)}, {cb(v)})' for k, v in sorted(map(tuple, t['field']))) + ')'
-        es.append(f"E {cb(t['date'])} {cb(t['desc'])} {c_eamount(t['amount'])} {cb(t['source'])} {fld} {copt(t['location'])} "
-                  f"{cbool(t['is_credit'])}")
-    return '(ERows ' + clist(es) + ')'
+        fld = '()' if t['field'] is None else node(lst(node(leaf(k), leaf(v)) for k, v in sorted(map(tuple, t['field']))))
+        es.append(node(leaf(t['date']), leaf(t['desc']), t_eamount(t['amount']), leaf(t['source']), fld, opt(t['location']),
+                       tbool(t['is_credit'])))
+    return node(leaf('E'), lst(es))
 
 
 def coq_case(case, r):
-    tbl = clist(f'({cb(k)}, {copt(v)})' for k, v in r['lib']['dates'])
-    ex = c_expected(r)
+    ex = t_expected(r)
     if ex is None:
         return None
-    return f'({c_spec(case, r)}, {tbl}, {c_input(case, r)}, {ex})'
+    tbl = lst(node(leaf(k), opt(v)) for k, v in r['lib']['dates'])
+    return node(t_spec(case, r), tbl, t_input(case, r), ex)
 
 
 def outside_fragment(case, r):
@@ -741,10 +698,11 @@ def model_check(items, name='C05'):
         rows.append(t)
         idx.append(i)
     bad = []
-    CH = 150
+    CH = 300
 
     def one(off):
-        body = 'Definition cases := [\n' + ';\n'.join(rows[off:off + CH]) + '\n].\nEval vm_compute in failing 0 cases.\n'
+        body = 'Definition cases : list string := [\n' + ';\n'.join('"' + x + '"' for x in rows[off:off + CH]) + \
+               '\n].\nEval vm_compute in check cases.\n'
         return off, run_cases(f'{name}_{off // CH}', HEADER, body)
     from concurrent.futures import ThreadPoolExecutor
     with ThreadPoolExecutor(max_workers=4) as ex:          # <= 4 coqc at a time
@@ -794,7 +752,7 @@ def main(tier):
         broken.append({'kind': 'hygiene', 'obligation': 'no Admitted/Axiom', 'detail': res['hygiene']})
 
     rnd = random.Random(run.seed * 7919 + 5)
-    n = 1400 if tier == 'quick' else 40000
+    n = 1600 if tier == 'quick' else 40000
     cases = corpus_cases() + [gen_case(rnd) for _ in range(n)]
     results = []
     B = 2000
@@ -828,6 +786,19 @@ def main(tier):
             if acc >= 2 and acc < len(c['rows']):
                 nontrivial.add(json.dumps([c['source'], [row.get('cells') for row in c['rows']]], sort_keys=True, default=str))
 
+    # ---- model vs implementation inside Coq ---------------------------------------------------------------
+    model_idx = []
+    if not tfails and res['ok']:
+        mc = comparable if tier == 'thorough' else comparable[:2000]
+        bad, model_idx, err = model_check(mc)
+        ob = 'model_vs_impl(C05.Model.parse, parsers.parse_generic_csv)'
+        if bad is None:
+            broken.append({'kind': 'broken-correspondence', 'obligation': ob, 'detail': 'cases.v did not evaluate: ' + err})
+        elif bad:
+            j = min(bad, key=lambda k: len(cases[k]['rows']))
+            broken.append({'kind': 'broken-correspondence', 'obligation': ob,
+                           'detail': {'case': slim(cases[j]), 'file_text': file_text(cases[j], cases[j]['rows']),
+                                      'implementation': results[j]['full'], 'spec': results[j]['spec'], 'n': len(bad)}})
     # ---- report failing laws (shrunk, one per signature) ------------------------------------------------
     by_sig = {}
     for i, laws in failing:
@@ -845,19 +816,6 @@ def main(tier):
                               'obligation': 'c05_* on the implementation', 'broken': broken, 'n_failing_cases': len(idxs)},
                       signature=sig)
 
-    # ---- model vs implementation inside Coq ---------------------------------------------------------------
-    model_idx = []
-    if not tfails and res['ok']:
-        mc = comparable if tier == 'thorough' else comparable[:1100]
-        bad, model_idx, err = model_check(mc)
-        ob = 'model_vs_impl(C05.Model.parse, parsers.parse_generic_csv)'
-        if bad is None:
-            broken.append({'kind': 'broken-correspondence', 'obligation': ob, 'detail': 'cases.v did not evaluate: ' + err})
-        elif bad:
-            j = min(bad, key=lambda k: len(cases[k]['rows']))
-            broken.append({'kind': 'broken-correspondence', 'obligation': ob,
-                           'detail': {'case': slim(cases[j]), 'file_text': file_text(cases[j], cases[j]['rows']),
-                                      'implementation': results[j]['full'], 'spec': results[j]['spec'], 'n': len(bad)}})
     unknown = [s for s in by_sig if s not in (SIG_NONFINITE, SIG_NONE_GROUP)]
     if broken and not unknown:
         run.violation('broken', {'kind': broken[0]['kind'], 'obligation': broken[0].get('obligation'), 'broken': broken,
